@@ -73,6 +73,9 @@ type Obs struct {
 	Res    []int      `json:"res"`
 	Alien  int        `json:"alien"`
 	Shared int        `json:"shared"` // returned rows that changed when arrays of returned rows were appended to
+	// entry probes: one-leaf queries for entries a filter denied although a stored row under it carries them
+	Probes    int `json:"probes"`
+	ProbeLost int `json:"probe_lost"` // stored rows carrying the entry that the probe query did not return
 	Res2   []int      `json:"res2"`
 	Conc   [][]int    `json:"conc"`
 	HasPre bool       `json:"has_pre"`
@@ -443,6 +446,7 @@ func (x *executor) Run(c *Case) *Obs {
 	}
 	sort.Slice(files, func(i, j int) bool { return string(files[i].PointerBytes) < string(files[j].PointerBytes) })
 	leaves := pruneLeaves(c.Q)
+	var denied []deniedEntry
 	for fi, f := range files {
 		ptr := string(f.PointerBytes)
 		fileIdx[ptr] = fi + 1
@@ -504,6 +508,17 @@ func (x *executor) Run(c *Case) *Obs {
 				bo.Rows = append(bo.Rows, i)
 				fl, tk, ft := RowEntries(x.cat, c.Rows[i-1], c.Tok)
 				bo.MissB += missing(bf.FieldBloomFilter, fl) + missing(bf.TokenBloomFilter, tk) + missing(bf.FieldTokenBloomFilter, ft)
+				// an entry of a stored row that a filter over it denies: remembered, and asked for through the engine below
+				for _, e := range fl {
+					if absent(bf.FieldBloomFilter, e) || absent(f.Metadata.BloomFilters.FieldBloomFilter, e) {
+						denied = append(denied, deniedEntry{"f", e})
+					}
+				}
+				for _, e := range tk {
+					if absent(bf.TokenBloomFilter, e) || absent(f.Metadata.BloomFilters.TokenBloomFilter, e) {
+						denied = append(denied, deniedEntry{"t", e})
+					}
+				}
 				ff := f.Metadata.BloomFilters
 				bo.MissF += missing(ff.FieldBloomFilter, fl) + missing(ff.TokenBloomFilter, tk) + missing(ff.FieldTokenBloomFilter, ft)
 			}
@@ -513,6 +528,49 @@ func (x *executor) Run(c *Case) *Obs {
 				bo.FA = append(bo.FA, leafAnswer(&ff, lf))
 			}
 			o.Blocks = append(o.Blocks, bo)
+		}
+	}
+
+	// ---- entry probes: for (at most three) entries a filter denied although a row under it carries them, the one-leaf
+	// query that asks for exactly that entry must still return every intact stored row carrying it
+	seenDenied := map[deniedEntry]bool{}
+	for _, de := range denied {
+		if seenDenied[de] || o.Probes >= 3 {
+			continue
+		}
+		seenDenied[de] = true
+		o.Probes++
+		want := map[int]int{}
+		for _, b := range o.Blocks {
+			for _, i := range b.Rows {
+				fl, tk, _ := RowEntries(x.cat, c.Rows[i-1], c.Tok)
+				es := fl
+				if de.kind == "t" {
+					es = tk
+				}
+				for _, e := range es {
+					if e == de.entry {
+						want[i]++
+						break
+					}
+				}
+			}
+		}
+		pq := bs.NewQuery().Field(de.entry).Build()
+		if de.kind == "t" {
+			pq = bs.NewQuery().Token(de.entry).Build()
+		}
+		got := map[int]int{}
+		if r, err := qeng.Query(context.Background(), pq); err == nil {
+			for r.Next() {
+				got[rowIndex(r.Row())]++
+			}
+			r.Close()
+		}
+		for i, n := range want {
+			if got[i] < n {
+				o.ProbeLost += n - got[i]
+			}
 		}
 	}
 
@@ -616,6 +674,15 @@ func overlaps(off, n, eoff, esize int64) bool {
 func within(off, n, eoff, esize int64) bool { return off >= eoff && off+n <= eoff+esize }
 
 type testStringer interface{ TestString(string) bool }
+
+type deniedEntry struct{ kind, entry string }
+
+func absent(f testStringer, e string) bool {
+	if f == nil || reflect.ValueOf(f).IsNil() {
+		return false
+	}
+	return !f.TestString(e)
+}
 
 func missing(f testStringer, entries []string) int {
 	if f == nil || reflect.ValueOf(f).IsNil() {
